@@ -47,6 +47,7 @@ func newInterp(prog *ssa.Program, sizes types.Sizes) *interpreter {
 		globals:    make(map[*ssa.Global]*value),
 		inited:     make(map[*ssa.Package]bool),
 		onceDone:   make(map[*value]bool),
+		built:      make(map[*ssa.Package]bool),
 		sizes:      sizes,
 		goroutines: 1,
 	}
